@@ -9,6 +9,12 @@ require (
 )
 
 require (
+	github.com/cloudwego/iasm v0.2.0 // indirect
+	golang.org/x/arch v0.12.0 // indirect
+)
+
+require (
+	github.com/anishathalye/porcupine v1.3.0
 	github.com/apache/thrift v0.19.0 // indirect
 	github.com/bytedance/gopkg v0.1.1 // indirect
 	github.com/cloudwego/frugal v0.2.1 // indirect
